@@ -99,6 +99,14 @@ CHECKS["C11"] = dict(
         "length-dependent value into a fixed capacity position. Equality with the reference permutations and the carry logic of the fast MDS "
         "reduction are not decided.",
    design_ref="DESIGN.md §3 C11")
+CHECKS["C12"] = dict(
+   technique="static analysis: token-grammar extraction from the MIR of every write_into/read_from pair with path-set comparison; limit agreement between constructor assertions, writer casts and reader decisions",
+   text="Static proof, for all 38 types with both impls, that the set of token sequences the writer can emit equals the set the reader consumes on "
+        "its accepting paths (byte widths, order, nesting, repetition), that TraceInfo's narrowing casts are covered by the limits its constructor "
+        "asserts, and that its reader accepts exactly the widths and random-element counts its constructor accepts. Decides the structural half "
+        "of the round trip (in particular for Proof, which no test round-trips); equality of decoded field values and reader-implementation "
+        "independence are C07/C13.",
+   design_ref="DESIGN.md §3 C12")
 NA = {
 }
 PENDING = "check under construction in this build round (see DESIGN.md §8)"
